@@ -126,8 +126,12 @@ func (d specDoc) envAny() map[string]any {
 // doc: the stored document; insert and update write the same keys so that an update which
 // changes nothing leaves the very same document.
 func (d specDoc) doc() map[string]any {
-	return map[string]any{spec.KeyID: uid(d.id), spec.KeyNamespace: nsName(d.ns), spec.KeyName: sName(d.name),
+	m := map[string]any{spec.KeyID: uid(d.id), spec.KeyNamespace: nsName(d.ns),
 		spec.KeyKind: kindName(d.kind), spec.KeyEnv: d.envAny(), "ver": d.ver, "echo": d.echo()}
+	if d.name != 0 { // an unnamed document has NO name key (the application's unique index covers documents that have one)
+		m[spec.KeyName] = sName(d.name)
+	}
+	return m
 }
 
 func (d specDoc) line(op string) string {
@@ -144,7 +148,11 @@ func (d specDoc) line(op string) string {
 }
 
 func (v valDoc) doc() map[string]any {
-	return map[string]any{value.KeyID: uid(v.id), value.KeyNamespace: nsName(v.ns), value.KeyName: vName(v.name), value.KeyData: v.ver}
+	m := map[string]any{value.KeyID: uid(v.id), value.KeyNamespace: nsName(v.ns), value.KeyData: v.ver}
+	if v.name != 0 {
+		m[value.KeyName] = vName(v.name)
+	}
+	return m
 }
 
 func (v valDoc) line(op string) string {
@@ -422,6 +430,10 @@ func errClass(err error) string {
 }
 
 func (w *world) insSpec(d specDoc) {
+	if _, exists := w.specs[d.id]; !exists && w.specNameTaken(d.id, d.ns, d.name) {
+		w.insSpecBatch([]specDoc{d}, []bool{false})
+		return
+	}
 	err := w.specStore.Insert(w.ctx, []any{d.doc()})
 	out := errClass(err)
 	_, exists := w.specs[d.id]
@@ -446,6 +458,40 @@ func (w *world) withUniqueNames() {
 		}
 	}
 	w.uniq = true
+}
+
+// specNameTaken / valNameTaken: under the unique index, is (ns, name) held by another document?
+func (w *world) specNameTaken(id, ns, name int) bool {
+	if !w.uniq || name == 0 {
+		return false
+	}
+	for _, o := range w.specs {
+		if o.id != id && o.ns == ns && o.name == name {
+			return true
+		}
+	}
+	return false
+}
+
+func (w *world) valNameTaken(id, ns, name int) bool {
+	if !w.uniq || name == 0 {
+		return false
+	}
+	for _, o := range w.vals {
+		if o.id != id && o.ns == ns && o.name == name {
+			return true
+		}
+	}
+	return false
+}
+
+// setOrUnsetName: the update document's part for the name (an unnamed document has no name key).
+func setOrUnsetName(update map[string]any, key string, name string) {
+	if name == "" {
+		update["$unset"] = map[string]any{key: 1}
+		return
+	}
+	update["$set"].(map[string]any)[key] = name
 }
 
 func has(st store.Store, ctx context.Context, id int) bool {
@@ -516,7 +562,7 @@ func (w *world) insSpecBatch(ds []specDoc, noID []bool) {
 			nameTaken := false
 			if w.uniq {
 				for _, o := range w.specs {
-					nameTaken = nameTaken || (o.ns == d.ns && o.name == d.name)
+					nameTaken = nameTaken || (d.name != 0 && o.ns == d.ns && o.name == d.name)
 				}
 			}
 			_, idTaken := w.specs[d.id]
@@ -575,7 +621,7 @@ func (w *world) insValBatch(vs []valDoc, noID []bool) {
 			nameTaken := false
 			if w.uniq {
 				for _, o := range w.vals {
-					nameTaken = nameTaken || (o.ns == v.ns && o.name == v.name)
+					nameTaken = nameTaken || (v.name != 0 && o.ns == v.ns && o.name == v.name)
 				}
 			}
 			_, idTaken := w.vals[v.id]
@@ -661,8 +707,12 @@ func batchPlan(rng *lib.RNG, base, n int, exists func(int) bool, pattern int) (i
 }
 
 func (w *world) updSpec(d specDoc) {
-	n, err := w.specStore.Update(w.ctx, map[string]any{spec.KeyID: uid(d.id)}, map[string]any{"$set": map[string]any{
-		spec.KeyName: sName(d.name), spec.KeyKind: kindName(d.kind), spec.KeyEnv: d.envAny(), "ver": d.ver, "echo": d.echo()}})
+	if old, ok := w.specs[d.id]; ok && w.specNameTaken(d.id, old.ns, d.name) {
+		d.name = 0 // the harness does not rename a document onto a taken (namespace, name)
+	}
+	update := map[string]any{"$set": map[string]any{spec.KeyKind: kindName(d.kind), spec.KeyEnv: d.envAny(), "ver": d.ver, "echo": d.echo()}}
+	setOrUnsetName(update, spec.KeyName, sName(d.name))
+	n, err := w.specStore.Update(w.ctx, map[string]any{spec.KeyID: uid(d.id)}, update)
 	out := "ok"
 	if err != nil {
 		out = "err:" + err.Error()
@@ -744,7 +794,11 @@ func (w *world) upsertSpec(d specDoc, sh upShape) {
 	update := map[string]any{"$set": set}
 	create := len(matches) == 0
 	if !sh.byName {
-		if sh.unsetName {
+		effNs := d.ns
+		if !create {
+			effNs = matches[0].ns
+		}
+		if sh.unsetName || d.name == 0 || w.specNameTaken(d.id, effNs, d.name) {
 			update["$unset"] = map[string]any{spec.KeyName: 1}
 			d.name = 0
 		} else {
@@ -832,7 +886,11 @@ func (w *world) upsertVal(v valDoc, sh upShape) {
 	update := map[string]any{"$set": set}
 	create := len(matches) == 0
 	if !sh.byName {
-		if sh.unsetName {
+		effNs := v.ns
+		if !create {
+			effNs = matches[0].ns
+		}
+		if sh.unsetName || v.name == 0 || w.valNameTaken(v.id, effNs, v.name) {
 			update["$unset"] = map[string]any{value.KeyName: 1}
 			v.name = 0
 		} else {
@@ -932,6 +990,10 @@ func (w *world) delSpec(id int) {
 }
 
 func (w *world) insVal(v valDoc) {
+	if _, exists := w.vals[v.id]; !exists && w.valNameTaken(v.id, v.ns, v.name) {
+		w.insValBatch([]valDoc{v}, []bool{false})
+		return
+	}
 	err := w.valueStore.Insert(w.ctx, []any{v.doc()})
 	out := errClass(err)
 	_, exists := w.vals[v.id]
@@ -946,8 +1008,12 @@ func (w *world) insVal(v valDoc) {
 }
 
 func (w *world) updVal(v valDoc) {
-	n, err := w.valueStore.Update(w.ctx, map[string]any{value.KeyID: uid(v.id)}, map[string]any{"$set": map[string]any{
-		value.KeyName: vName(v.name), value.KeyData: v.ver}})
+	if old, ok := w.vals[v.id]; ok && w.valNameTaken(v.id, old.ns, v.name) {
+		v.name = 0
+	}
+	update := map[string]any{"$set": map[string]any{value.KeyData: v.ver}}
+	setOrUnsetName(update, value.KeyName, vName(v.name))
+	n, err := w.valueStore.Update(w.ctx, map[string]any{value.KeyID: uid(v.id)}, update)
 	out := "ok"
 	if err != nil {
 		out = "err:" + err.Error()
@@ -1274,6 +1340,10 @@ func seqCase(c *lib.Ctx, rng *lib.RNG, sc *lib.Script, fails *[]lib.OracleFail) 
 	w := newWorld(c, sc, fails, 1)
 	defer w.close()
 	w.op("rt 1", "ok")
+	if rng.Chance(1, 3) { // the stores as the application sets them up: unique (namespace, name) among the documents that have a name
+		w.withUniqueNames()
+		w.remark("both stores carry the application's partial unique index on (namespace, name)")
+	}
 	nops := rng.Range(6, c.Scale(30, 70))
 	loads := 0
 	if rng.Bool() { // some values first, so that references can resolve from the start
@@ -1443,6 +1513,10 @@ func watchCase(c *lib.Ctx, rng *lib.RNG, sc *lib.Script, fails *[]lib.OracleFail
 	defer w.close()
 	defer curParker.Store(nil)
 	w.op("rt 1", "ok")
+	if rng.Chance(1, 3) { // the stores as the application sets them up: unique (namespace, name) among the documents that have a name
+		w.withUniqueNames()
+		w.remark("both stores carry the application's partial unique index on (namespace, name)")
+	}
 	for i := rng.Intn(6); i > 0; i-- {
 		w.mutate(rng, nns)
 	}
@@ -1550,6 +1624,10 @@ func raceCase(c *lib.Ctx, rng *lib.RNG, sc *lib.Script, fails *[]lib.OracleFail,
 	curParker.Store(p)
 	defer curParker.Store(nil)
 	w.op("rt 1", "ok")
+	if rng.Chance(1, 3) { // the stores as the application sets them up: unique (namespace, name) among the documents that have a name
+		w.withUniqueNames()
+		w.remark("both stores carry the application's partial unique index on (namespace, name)")
+	}
 	sid, vid, vname := 1+rng.Intn(nSpecIDs), valBase+rng.Intn(nValIDs), rng.Range(1, 4)
 	byID := rng.Bool()
 	d := specDoc{id: sid, ns: 1, name: rng.Intn(4), kind: rng.Intn(3), ver: 1, env: []envEnt{{key: 1, byID: byID, ref: vid}}}
@@ -1651,6 +1729,10 @@ func repeatCase(c *lib.Ctx, rng *lib.RNG, sc *lib.Script, fails *[]lib.OracleFai
 	defer w.close()
 	defer curParker.Store(nil)
 	w.op("rt 1", "ok")
+	if rng.Chance(1, 3) { // the stores as the application sets them up: unique (namespace, name) among the documents that have a name
+		w.withUniqueNames()
+		w.remark("both stores carry the application's partial unique index on (namespace, name)")
+	}
 	sid, vid, vname := 1+rng.Intn(nSpecIDs), valBase+rng.Intn(nValIDs), rng.Range(1, 4)
 	d := specDoc{id: sid, ns: 1, name: rng.Intn(4), kind: rng.Intn(3), ver: 1}
 	if onValue || rng.Bool() {
@@ -1834,6 +1916,10 @@ func deleteCase(c *lib.Ctx, rng *lib.RNG, sc *lib.Script, fails *[]lib.OracleFai
 	defer w.close()
 	defer curParker.Store(nil)
 	w.op("rt 1", "ok")
+	if rng.Chance(1, 3) { // the stores as the application sets them up: unique (namespace, name) among the documents that have a name
+		w.withUniqueNames()
+		w.remark("both stores carry the application's partial unique index on (namespace, name)")
+	}
 	sid, vid, vname := 1+rng.Intn(nSpecIDs), valBase+rng.Intn(nValIDs), rng.Range(1, 4)
 	e := envEnt{key: 1, byID: rng.Bool(), ref: vid}
 	if !e.byID {
@@ -2011,6 +2097,10 @@ func upsertCase(c *lib.Ctx, rng *lib.RNG, sc *lib.Script, fails *[]lib.OracleFai
 	w := newWorld(c, sc, fails, 1)
 	defer w.close()
 	w.op("rt 1", "ok")
+	if rng.Chance(1, 3) { // the stores as the application sets them up: unique (namespace, name) among the documents that have a name
+		w.withUniqueNames()
+		w.remark("both stores carry the application's partial unique index on (namespace, name)")
+	}
 	sid, vid, vname := 1+rng.Intn(nSpecIDs), valBase+rng.Intn(nValIDs), rng.Range(1, 4)
 	e := envEnt{key: 1, byID: rng.Bool(), ref: vid}
 	if !e.byID {
@@ -2192,6 +2282,10 @@ func sizeCase(c *lib.Ctx, rng *lib.RNG, sc *lib.Script, fails *[]lib.OracleFail,
 	w := newWorld(c, sc, fails, 1)
 	defer w.close()
 	w.op("rt 1", "ok")
+	if rng.Chance(1, 3) { // the stores as the application sets them up: unique (namespace, name) among the documents that have a name
+		w.withUniqueNames()
+		w.remark("both stores carry the application's partial unique index on (namespace, name)")
+	}
 	n := rng.Range(17, 60)
 	lim := func(x int) int {
 		if x > n {
@@ -2218,6 +2312,11 @@ func sizeCase(c *lib.Ctx, rng *lib.RNG, sc *lib.Script, fails *[]lib.OracleFail,
 	specs := map[int]*specDoc{}
 	for id := 1; id <= n; id++ {
 		specs[id] = &specDoc{id: id, ns: 1, name: rng.Intn(4), kind: rng.Intn(4), ver: rng.Range(1, 9)}
+		if w.uniq && (id > 3 || rng.Bool()) {
+			specs[id].name = 0
+		} else if w.uniq {
+			specs[id].name = id
+		}
 	}
 	var sharing []int
 	allByID := rng.Bool() // with no reference by name every value filter of a Load carries an id
@@ -2364,6 +2463,67 @@ func diffTables(got, want map[int]symObs) string {
 	return strings.Join(ps, "; ")
 }
 
+// ---------------------------------------------------------------- indexed stores: references by id and by name in one Load
+
+// mixedRefCase (directed): both stores carry the application's partial unique index on
+// (namespace, name); an UNNAMED value is referenced by id and a named value by name in the same
+// Load – by two env entries of one spec (twoSpecs = false) or by two specs – in a Load session
+// (every Load observed in full) or a Watch+Reconcile session (values arrive after the specs; the
+// table is compared at quiescence).
+func mixedRefCase(c *lib.Ctx, rng *lib.RNG, sc *lib.Script, fails *[]lib.OracleFail, twoSpecs, watch bool) string {
+	w := newWorld(c, sc, fails, 1)
+	defer w.close()
+	w.withUniqueNames()
+	w.op("rt 1", "ok")
+	w.remark("both stores carry the application's partial unique index on (namespace, name)")
+	va := valDoc{id: valBase + rng.Intn(nValIDs), ns: 1, name: 0, ver: rng.Range(1, 9)}
+	vb := valDoc{id: valBase + (va.id-valBase+1+rng.Intn(nValIDs-1))%nValIDs, ns: 1, name: rng.Range(1, 4), ver: rng.Range(1, 9)}
+	sid := 1 + rng.Intn(nSpecIDs)
+	x := specDoc{id: sid, ns: 1, name: rng.Intn(4), kind: rng.Intn(3), ver: 1, env: []envEnt{{key: 1, byID: true, ref: va.id}}}
+	y := specDoc{id: sid%nSpecIDs + 1, ns: 1, name: 0, kind: rng.Intn(3), ver: 1}
+	if twoSpecs {
+		y.env = []envEnt{{key: 1, ref: vb.name}}
+	} else {
+		x.env = append(x.env, envEnt{key: 2, ref: vb.name})
+	}
+	if !watch {
+		w.insVal(va)
+		w.insVal(vb)
+		w.insSpec(x)
+		w.insSpec(y)
+		w.load(nil)
+		w.load(nil)
+		va.ver = va.ver%9 + 1
+		w.updVal(va)
+		w.load(nil)
+		w.load([]int{x.id, y.id})
+		c.Hit("mixed-refs-load-session")
+		return "m:" + strings.Join(w.trace, ";")
+	}
+	w.insSpec(x)
+	w.insSpec(y)
+	s := w.startSessionPlain()
+	steps := []func(){
+		func() { w.insVal(va); w.insVal(vb) },
+		func() { va.ver = va.ver%9 + 1; w.updVal(va) },
+		func() { vb.ver = vb.ver%9 + 1; w.updVal(vb) },
+	}
+	for _, st := range steps {
+		st()
+		got, ok := w.quiesce(3 * time.Second)
+		w.op("drain", "T "+got)
+		w.takeNotes()
+		if !ok {
+			w.fail("not-converged", fmt.Sprintf("indexed stores, an unnamed value referenced by id next to a named value referenced by name: 3 s after the last change the table is [%s], the stores demand [%s]", got, tableString(w.target())))
+			break
+		}
+	}
+	s.cancel()
+	w.awaitReconcile(s, "its context was cancelled")
+	c.Hit("mixed-refs-watch-session")
+	return "m:" + strings.Join(w.trace, ";")
+}
+
 // ---------------------------------------------------------------- corpus
 
 // replayCorpus runs hand-written op files: every line is executed on the implementation and
@@ -2434,7 +2594,7 @@ func replayCorpus(c *lib.Ctx, sc *lib.Script, fails *[]lib.OracleFail) {
 }
 
 func Run(c *lib.Ctx) {
-	c.Rule = "random histories (≤30 ops quick / ≤70 thorough) of insert (single documents and batches of 2–4 with a later document refused: id stored, id repeated in the batch, no id; in a directed family also a taken (namespace,name) under the unique index) / update / delete / Update with Upsert or $unset (documents addressed by id, id+namespace, name, namespace+name; namespace in the filter or only in $set; on existing and on absent documents) on the spec store (6 ids, kinds k0 k1 registered, k2 k3 unknown, 0–2 env entries by id or by name) and the value store (6 ids, 4 names) over 2–3 namespaces with Load(nil) / Load({id}) / Load({$or}) at random points, every Load observed (whole table + notifications) and compared with Uniflow.Runtime.step and with the harness's own target; plus Watch+Reconcile runs (bursts of 1–4 mutations) compared at quiescence – one to three watch sessions on the SAME runtime (a session ends by cancelling its context, sometimes followed by Runtime.Close or by another Reconcile call; the next starts with Watch – sometimes twice – and Load(nil); Watch may also be repeated in a live session) –, plus forced overlaps of a parked Load with the mutation and the other consumer (verif yield hook), plus a directed family (the same spec / the same bound value updated 2–3 times while the reconciler's Load for the first update is parked, with / without an unrelated event afterwards) and the same as a random ingredient of the Watch+Reconcile histories (1 round in 4), plus a second directed family (a spec that a parked Load – the reload for its value's update, or a user's Load(nil) – has read is deleted / deleted and re-inserted here or in another namespace / loses its value, the reconciler gets a moment, the Load is released) and its random ingredient (1 round in 4); plus a size family (about 1 history in 10: 17–60 specs in the namespace, one value shared by 17–40 of them by id or by name, 17–40 values referenced by one spec each; the shared value updated / deleted / re-inserted, values and specs changed, in Load sessions with Load(nil) and id-filters over ≥17 specs and in Watch+Reconcile sessions); non-trivial = at least two Loads and a non-empty spec store, distinct by full trace"
+	c.Rule = "random histories (≤30 ops quick / ≤70 thorough) of insert (single documents and batches of 2–4 with a later document refused: id stored, id repeated in the batch, no id; in a directed family also a taken (namespace,name) under the unique index) / update / delete / Update with Upsert or $unset (documents addressed by id, id+namespace, name, namespace+name; namespace in the filter or only in $set; on existing and on absent documents) on the spec store (6 ids, kinds k0 k1 registered, k2 k3 unknown, 0–2 env entries by id or by name) and the value store (6 ids, 4 names) over 2–3 namespaces with Load(nil) / Load({id}) / Load({$or}) at random points, every Load observed (whole table + notifications) and compared with Uniflow.Runtime.step and with the harness's own target; plus Watch+Reconcile runs (bursts of 1–4 mutations) compared at quiescence – one to three watch sessions on the SAME runtime (a session ends by cancelling its context, sometimes followed by Runtime.Close or by another Reconcile call; the next starts with Watch – sometimes twice – and Load(nil); Watch may also be repeated in a live session) –, plus forced overlaps of a parked Load with the mutation and the other consumer (verif yield hook), plus a directed family (the same spec / the same bound value updated 2–3 times while the reconciler's Load for the first update is parked, with / without an unrelated event afterwards) and the same as a random ingredient of the Watch+Reconcile histories (1 round in 4), plus a second directed family (a spec that a parked Load – the reload for its value's update, or a user's Load(nil) – has read is deleted / deleted and re-inserted here or in another namespace / loses its value, the reconciler gets a moment, the Load is released) and its random ingredient (1 round in 4); plus a size family (about 1 history in 10: 17–60 specs in the namespace, one value shared by 17–40 of them by id or by name, 17–40 values referenced by one spec each; the shared value updated / deleted / re-inserted, values and specs changed, in Load sessions with Load(nil) and id-filters over ≥17 specs and in Watch+Reconcile sessions); one history in three (of every kind, the size family included) runs on stores carrying the application's partial unique index on (namespace, name) – unnamed documents have no name key, a taken name refuses an insert (told to the model as accepted = 0), the harness never renames onto a taken name –, plus a directed family mixing an unnamed value referenced by id with a named value referenced by name in one Load; non-trivial = at least two Loads and a non-empty spec store, distinct by full trace"
 	c.Assumptions = []string{
 		"each store mutation, each Load and each consumption of one stream event is one atomic step of the model (store mutex; loadMu of the fixed runtime)",
 		"a spec and a value keep their namespace for life (a move is delete + insert); env entries reference a value by id or by name (anonymous entries and Config.Environment are C18's subject and are not generated)",
@@ -2491,6 +2651,15 @@ func Run(c *lib.Ctx) {
 			for reason := 0; reason < 5; reason++ {
 				sc.Begin()
 				c.Count(batchCase(c, rng.Fork(), sc, &fails, onValue, reason))
+			}
+		}
+	}
+	// directed family: indexed stores, an unnamed value by id next to a named value by name in one Load
+	for rep := c.Scale(2, 10); rep > 0; rep-- {
+		for _, twoSpecs := range []bool{false, true} {
+			for _, watch := range []bool{false, true} {
+				sc.Begin()
+				c.Count(mixedRefCase(c, rng.Fork(), sc, &fails, twoSpecs, watch))
 			}
 		}
 	}
